@@ -8,7 +8,8 @@
 (* must report for a program is the program itself plus the derived facts: *)
 (* Thrift's implicit enum numbering, union members optional, requiredness  *)
 (* defaults.  The second file of a two-file program (inc.frugal) is fixed: *)
-(* struct Ext, enum ExtE {P, Q}, const EXTC, service ExtSvc.               *)
+(* struct Ext, enum ExtE {P, Q}, const EXTC, service ExtSvc; so are the    *)
+(* files of a program with a tree of includes (AddTree).                   *)
 (* The lexical style (separators, comments, quotes, layout) is chosen by   *)
 (* the renderer and is not part of the model.                              *)
 (***************************************************************************)
@@ -43,10 +44,11 @@ OpNames == {"Created", "op2"}
 \* ---- helpers ----
 Idx(s) == 1..Len(s)
 Names(s) == {s[i].name : i \in Idx(s)}
-Empty == [ns |-> <<>>, include |-> FALSE, badinclude |-> FALSE, typedefs |-> <<>>, enums |-> <<>>, consts |-> <<>>, structs |-> <<>>, services |-> <<>>, scopes |-> <<>>]
+Empty == [ns |-> <<>>, include |-> FALSE, tree |-> FALSE, badinclude |-> FALSE, typedefs |-> <<>>, enums |-> <<>>, consts |-> <<>>, structs |-> <<>>, services |-> <<>>, scopes |-> <<>>]
 Declared(p) == Names(p.typedefs) \cup Names(p.enums) \cup Names(p.structs)
 \* user types a field may refer to
 Refs(p) == {R(n) : n \in Declared(p)} \cup (IF p.include THEN {R("inc.Ext"), R("inc.ExtE")} ELSE {})
+                                       \cup (IF p.tree THEN {R("left.L"), R("right.Rt")} ELSE {})
 Leafs(p) == BaseTypes \cup Refs(p)
 \* a small but shape-complete pool of types over what is declared
 Types(p) == Leafs(p) \cup {L(t) : t \in {B("i32"), B("string")} \cup Refs(p)}
@@ -121,7 +123,7 @@ AnnBase == [EnumRefsBase EXCEPT !.services = <<[name |-> "Svc", extends |-> "", 
                <<[name |-> "get", oneway |-> FALSE, ret |-> <<R("T2")>>, args |-> <<[id |-> 1, req |-> "default", t |-> R("Thing"), name |-> "a", dflt |-> [k |-> "none"]]>>,
                   throws |-> <<>>, anns |-> 0]>>]>>]
 Init == /\ p = (IF Focus = "enumrefs" THEN EnumRefsBase ELSE IF Focus = "annotations" THEN AnnBase
-                ELSE IF Focus = "fields" THEN [EnumRefsBase EXCEPT !.include = TRUE] ELSE Empty)
+                ELSE IF Focus = "fields" THEN [EnumRefsBase EXCEPT !.include = TRUE, !.tree = TRUE] ELSE Empty)
         /\ steps = 0 /\ broken = "none"
 Fields(p0, n, kind) ==
   {fs \in UNION {[1..k -> [id : {1, 2, 3, 7}, req : (IF kind \in {"args", "throws"} THEN {"default"} ELSE Reqs), t : {B("i32")}, name : FieldNames]] : k \in 0..n} : TRUE}
@@ -131,6 +133,9 @@ AddNs == /\ Len(p.ns) < 2
               /\ ~\E i \in Idx(p.ns) : p.ns[i].scope = s
               /\ p' = [p EXCEPT !.ns = Append(@, [scope |-> s, value |-> v])]
 AddInclude == ~p.include /\ p' = [p EXCEPT !.include = TRUE]
+\* a directory tree of includes: left.frugal (struct L) and right.frugal (struct Rt) each include a file called common.frugal,
+\* a/common.frugal and b/common.frugal, which define Num and Item differently (i64 / double against i32 / i16)
+AddTree == ~p.tree /\ p' = [p EXCEPT !.tree = TRUE]
 AddTypedef == /\ Len(p.typedefs) < MaxDecls
               /\ \E n \in TypeNames \ Declared(p), t \in TypesF(p) :
                    p' = [p EXCEPT !.typedefs = Append(@, [name |-> n, t |-> t])]
@@ -224,7 +229,7 @@ AddAny == CASE Focus = "enums" -> AddEnum \/ AddEnumValue
             [] Focus = "fields" -> AddField \/ AddEnumDefaultField
             [] Focus = "enumrefs" -> \/ AddEnum \/ AddEnumValue \/ AddTypedef \/ AddStruct \/ AddField \/ AddEnumDefaultField \/ AddEnumConst
                                      \/ AddService \/ AddMethod \/ AddArg \/ AddScope \/ AddOp
-            [] OTHER -> \/ AddNs \/ AddInclude \/ AddTypedef \/ AddEnum \/ AddEnumValue \/ AddConst \/ AddEnumConst \/ AddStruct \/ AddField
+            [] OTHER -> \/ AddNs \/ AddInclude \/ AddTree \/ AddTypedef \/ AddEnum \/ AddEnumValue \/ AddConst \/ AddEnumConst \/ AddStruct \/ AddField
                         \/ AddEnumDefaultField \/ Annotate \/ AddService \/ AddMethod \/ AnnotateMethod \/ AddArg \/ AddThrow \/ AddScope \/ AddOp
 \* ---- invalidating edits: exactly one, as the last step of a walk (C11: every other input gets a diagnostic) ----
 F0(id, t, n) == [id |-> id, req |-> "default", t |-> t, name |-> n, dflt |-> [k |-> "none"]]
